@@ -643,6 +643,24 @@ func (c *SpecCtx) call(x *ECall) Val {
 		return c.eval(x.Args[i])
 	}
 	switch x.Fun {
+	case "outer":
+		// value at the start of the current iteration of the enclosing loop
+		if c.loop == nil {
+			c.fail("outer() outside a loop clause")
+		}
+		enc := c.p.fx.enclosingLoop(c.loop)
+		if enc == nil {
+			c.fail("outer(): loop has no enclosing loop")
+		}
+		vars, st, ok := c.p.startOf(enc)
+		if !ok {
+			c.fail("outer(): no snapshot of the enclosing loop on this path")
+		}
+		d := c.with(vars)
+		d.st = st
+		d.loop = enc
+		d.cur = nil
+		return d.eval(x.Args[0])
 	case "now":
 		if c.cur == nil {
 			return c.eval(x.Args[0])
@@ -733,6 +751,15 @@ func (c *SpecCtx) call(x *ECall) Val {
 		}
 		t := c.resolveType(tn)
 		return Val{T: fmt.Sprintf("(= (iface_type %s) %d)", v.T, env.typeTagOf(t)), Ty: tBool}
+	case "cast":
+		v := arg(0)
+		return Val{T: v.T, Ty: c.resolveType(x.Args[1].String())}
+	case "implements":
+		v := arg(0)
+		t := c.resolveType(x.Args[1].String())
+		f := env.uf("implements_"+sanitize(shortTypeName(t)), []string{"Int"}, "Bool")
+		c.p.implFacts(f, t)
+		return Val{T: fmt.Sprintf("(and (not (= %s iface_nil)) (%s (iface_type %s)))", v.T, f, v.T), Ty: tBool}
 	case "any":
 		v := arg(0)
 		if c.sort(v.Ty) == "Iface" {
@@ -911,6 +938,27 @@ func (c *SpecCtx) locs(e Expr) []Loc {
 			}
 			hh, hv := env.mapHeaps(mt)
 			return []Loc{{Heap: hh, Addr: v.T, MapRow: true}, {Heap: hv, Addr: v.T, MapRow: true}}
+		case "fields":
+			// field f of every object of type T: fields(T.f)
+			sel, ok := call.Args[0].(*ESel)
+			if !ok {
+				c.fail("fields(T.f) expected")
+			}
+			t := c.resolveType(sel.X.String())
+			st, ok := t.Underlying().(*types.Struct)
+			if !ok {
+				c.fail("fields: %s is not a struct", sel.X)
+			}
+			for i := 0; i < st.NumFields(); i++ {
+				if st.Field(i).Name() == sel.Name {
+					fn := env.fieldFn(t, i)
+					if !isScalar(st.Field(i).Type()) {
+						c.fail("fields: aggregate field")
+					}
+					return []Loc{{Heap: env.memHeap(st.Field(i).Type()), AllTag: env.fieldTag[fn]}}
+				}
+			}
+			c.fail("fields: no field %s", sel.Name)
 		case "entriesOf":
 			// rows of every map stored in an array-typed location
 			a, t := c.addr(call.Args[0])
